@@ -1,7 +1,6 @@
 #!/usr/bin/env python3
 import json,sys
 props={json.loads(l)['id']:json.loads(l) for l in open('/verif/properties.jsonl')}
-T=open('/tmp/seed_out/prompt_c02.txt').read()
 pid,name,k=sys.argv[1],sys.argv[2],sys.argv[3]
 extra=" ".join(sys.argv[4:])
 p=props[pid]
@@ -28,5 +27,7 @@ For each mutant number N (1..{k}) write into the directory /tmp/seed_out/{name}_
   - notes.md : which clause of the property it breaks, what specific input/shape/history it needs to manifest, the exact commands you ran and their outcome.
 After saving each mutant, restore the worktree with `git -C {wt} checkout -- . && git -C {wt} clean -fdq` before starting the next one, and leave the worktree clean at the end. Keep your final answer short: list the mutants with a one-line description each.
 '''
+import os
+os.makedirs('/tmp/seed_out',exist_ok=True)
 open(f'/tmp/seed_out/prompt_{name}.txt','w').write(TT.format(wt=f'/tmp/wt/{name}',pid=pid,title=p['title'],statement=p['statement'],quant=p['quantifier']['text'],files=', '.join(p['anchors']['files']),k=k,name=name,extra=extra))
 print("ok",name)
